@@ -106,9 +106,9 @@ let print_item show_exec = function
   | KUser (THAfter (j, i, ts)) -> pf "hafter %d %d %s\n" (int_of_nat j) (int_of_nat i) (hx ts)
   | KUser (THFinal j) -> pf "hfinal %d\n" (int_of_nat j)
   | KUser (TAssertFail i) -> pf "assertfail %d\n" (int_of_nat i)
-  | KExec (i, ts, p) -> if show_exec then pf "exec %d %s %s\n" (int_of_nat i) (hx ts) (str_pl p)
+  | KExec (i, ts, sq, p) -> if show_exec then pf "exec %d %s %d %s\n" (int_of_nat i) (hx ts) (int_of_n sq) (str_pl p)
   | KRefused (ts, p) -> pf "refused %s %s\n" (hx ts) (str_pl p)
-  | KSched (ts, p) -> if show_exec then pf "sched %s %s\n" (hx ts) (str_pl p)
+  | KSched (ts, sq, p) -> if show_exec then pf "sched %s %d %s\n" (hx ts) (int_of_n sq) (str_pl p)
 
 let read_action () : float action =
   match next () with
